@@ -51,9 +51,26 @@ class Trace:
                 self.ack_call[ret[1]] = (ci if ci is not None else i, call)
                 # an upsert that found its key physically present at call time queues UpdateWeight, otherwise a put
                 k = key_of_call(call)
-                self.ack_is_update[ret[1]] = (call[0] == "upsert" and ci is not None and k in self.store_before(ci))
+                at = i if (ci is not None and self.recs[ci]["ret"] and self.recs[ci]["ret"][0] == 8) else ci
+                self.ack_is_update[ret[1]] = (call[0] == "upsert" and at is not None and k in self.store_before(at))
                 if self.worker_role(i, before=True) == "alive":
                     fifo.append(ret[1])
+            # calls that had been blocked on a shard and completed when this event released the reference guard
+            for tid_ret in r.get("unblocked", []):
+                utid, uret = tid_ret
+                if uret and uret[0] == 0:
+                    cj = None
+                    for j in range(i - 1, -1, -1):
+                        pj = recs[j]["ev"].split()
+                        if pj[0] == "call" and pj[1] == str(utid) and not recs[j]["skipped"] and recs[j]["ret"] and recs[j]["ret"][0] == 8:
+                            cj = j
+                            break
+                    if cj is not None:
+                        ucall = recs[cj]["ev"].split()[2:]
+                        self.ack_call[uret[1]] = (cj, ucall)
+                        self.ack_is_update[uret[1]] = (ucall[0] == "upsert" and key_of_call(ucall) in self.store_before(i))
+                        if self.worker_role(i, before=True) == "alive":
+                            fifo.append(uret[1])
             if p[0] == "call" and p[2] == "shutdown" and ret and ret[0] == 5 and self.before[i]["shut"] == 0:
                 if self.worker_role(i, before=True) == "alive":
                     fifo.append("shutdown")
@@ -78,7 +95,7 @@ class Trace:
         tid = self.recs[i]["ev"].split()[1]
         for j in range(i - 1, -1, -1):
             p = self.recs[j]["ev"].split()
-            if p[0] == "call" and p[1] == tid and not self.recs[j]["skipped"] and self.recs[j]["ret"] and self.recs[j]["ret"][0] == 3:
+            if p[0] == "call" and p[1] == tid and not self.recs[j]["skipped"] and self.recs[j]["ret"] and self.recs[j]["ret"][0] in (3, 8):
                 return p[2:]
         return ["?"]
 
@@ -86,9 +103,27 @@ class Trace:
         tid = self.recs[i]["ev"].split()[1]
         for j in range(i - 1, -1, -1):
             p = self.recs[j]["ev"].split()
-            if p[0] == "call" and p[1] == tid and not self.recs[j]["skipped"] and self.recs[j]["ret"] and self.recs[j]["ret"][0] == 3:
+            if p[0] == "call" and p[1] == tid and not self.recs[j]["skipped"] and self.recs[j]["ret"] and self.recs[j]["ret"][0] in (3, 8):
                 return j
         return None
+
+    def unblocked_at(self, i):
+        """calls that had been blocked on a shard kept locked by a reference guard ([8]) and proceed when event i releases
+        the guard (their result is collected by a later `run`)"""
+        r = self.recs[i]
+        p = r["ev"].split()
+        if r["skipped"] or p[0] != "call" or p[2] != "release_ref":
+            return []
+        out = []
+        for j in range(i):
+            pj = self.recs[j]["ev"].split()
+            rj = self.recs[j]
+            if pj[0] == "call" and not rj["skipped"] and rj["ret"] and rj["ret"][0] == 8:
+                collected = any(self.recs[m]["ev"].split()[:2] == ["run", pj[1]] and not self.recs[m]["skipped"] for m in range(j + 1, i))
+                released_before = any(self.recs[m]["ev"].split()[0] == "call" and self.recs[m]["ev"].split()[2] == "release_ref" and not self.recs[m]["skipped"] for m in range(j + 1, i))
+                if not collected and not released_before:
+                    out.append((j, pj[2:]))
+        return out
 
     def store_before(self, i):
         return {e[0]: e for e in self.before[i]["store"]}
@@ -194,7 +229,7 @@ def read_results(t, i):
     unmap = lambda v: None if v == -1 else (v - 1) // 2
     if op == "get":
         return [(int(p[3]), vals[0] if vals else None)]
-    if op == "get_ref":
+    if op in ("get_ref", "hold_ref"):
         return [(int(p[3]), vals[0] if vals else None)]
     if op in ("map_get", "map_get_ref"):
         return [(int(p[3]), (vals[0] - 1) // 2 if vals else None)]
@@ -225,6 +260,22 @@ def mon_C02(t):
             if p[2] == "upsert" and p[4] != "-" and int(p[3]) in t.store_before(i):
                 last_upsert_present[int(p[3])] = i
                 applied[(int(p[3]), int(p[4]))] = i
+        for j, call in t.unblocked_at(i):
+            if call[0] == "delete":
+                last_delete[int(call[1])] = i
+            if call[0] == "upsert" and call[2] != "-" and int(call[1]) in t.store_before(i):
+                last_upsert_present[int(call[1])] = i
+                applied[(int(call[1]), int(call[2]))] = i
+        if p[0] == "run" and r["ret"] and r["ret"][0] in (0, 1) and False:
+            # (superseded by unblocked_at: the call proceeds when the guard is released)
+            call = t.pending_call(i)
+            ci = t.pending_call_index(i)
+            if call and ci is not None and t.recs[ci]["ret"][0] == 8:
+                if call[0] == "delete":
+                    last_delete[int(call[1])] = i
+                if call[0] == "upsert" and call[2] != "-" and int(call[1]) in t.store_before(i):
+                    last_upsert_present[int(call[1])] = i
+                    applied[(int(call[1]), int(call[2]))] = i
         if p[0] == "worker" and i in t.executed and t.executed[i] in t.ack_call:
             a = t.executed[i]
             ci, call = t.ack_call[a]
@@ -283,6 +334,9 @@ def mon_C03(t):
             cause = None
             if p[0] == "call" and p[2] in ("upsert", "delete") and int(p[3]) == k and new is not None:
                 cause = "own call"
+            for j, call in t.unblocked_at(i):
+                if call[0] in ("upsert", "delete") and int(call[1]) == k and new is not None:
+                    cause = "own call (was blocked on the shard)"
             if p[0] == "run" and new is not None:
                 call = t.pending_call(i)
                 if call and call[0] in ("upsert", "delete") and int(call[1]) == k:
@@ -327,6 +381,9 @@ def mon_C04(t):
         sb, sa = t.store_before(i), t.store_after(i)
         if p[0] == "call" and p[2] == "delete" and r["ret"] and r["ret"][0] in (0, 3):
             hidden[int(p[3])] = i
+        for j, call in t.unblocked_at(i):
+            if call[0] == "delete":
+                hidden[int(call[1])] = i
         if p[0] == "worker" and i in t.executed and t.executed[i] in t.ack_call:
             a = t.executed[i]
             ci, call = t.ack_call[a]
@@ -813,6 +870,51 @@ def mon_C17(t):
 
 MONITORS = {"C01": mon_C01, "C02": mon_C02, "C03": mon_C03, "C04": mon_C04, "C05": mon_C05, "C06": mon_C06, "C07": mon_C07, "C08": mon_C08,
             "C09": mon_C09, "C10": mon_C10, "C11": mon_C11, "C13": mon_C13, "C15": mon_C15, "C16": mon_C16, "C17": mon_C17}
+
+
+def mon_C08_all(t):
+    # "an upsert acknowledged as accepted is never silently lost": a key that was upserted must not disappear without cause
+    upserted = {int(r["ev"].split()[3]) for r in t.recs if r["ev"].startswith("call") and r["ev"].split()[2] == "upsert" and not r["skipped"]}
+    lost = [f for f in mon_C03(t) if any(("key %d " % k) in f["what"] for k in upserted)]
+    for f in lost:
+        f["signature"] = "accepted-upsert-lost"
+    return mon_C08(t) + lost
+
+
+MONITORS["C08"] = mon_C08_all
+
+
+def mon_guard(t):
+    """For the directed schedules in which a caller keeps a get_ref reference guard while another caller's write blocks on
+    that shard: once delete(k) has returned (or has proceeded after the guard was released) no read returns k's value;
+    once put_or_update(k, v) has returned every read returns v."""
+    out = []
+    deleted, current = set(), {}
+    for i, r in enumerate(t.recs):
+        if r["skipped"]:
+            continue
+        p = r["ev"].split()
+        done = []
+        if p[0] == "call" and r["ret"] and r["ret"][0] in (0, 1):
+            done.append(p[2:])
+        for tid_ret in r.get("unblocked", []):
+            if tid_ret[1] and tid_ret[1][0] in (0, 1):
+                for j in range(i - 1, -1, -1):
+                    pj = t.recs[j]["ev"].split()
+                    if pj[0] == "call" and pj[1] == str(tid_ret[0]) and t.recs[j]["ret"] and t.recs[j]["ret"][0] == 8:
+                        done.append(pj[2:])
+                        break
+        for call in done:
+            if call[0] == "delete":
+                deleted.add(int(call[1]))
+            if call[0] == "upsert" and call[2] != "-":
+                current[int(call[1])] = int(call[2])
+        for k, v in read_results(t, i):
+            if v is not None and k in deleted:
+                out.append(fail(t, i, "deleted-key-readable", "read of key %d returned %d after delete(%d) had returned (a reference guard was held on its shard)" % (k, v, k), no_shrink=True))
+            if v is not None and k in current and v != current[k]:
+                out.append(fail(t, i, "superseded-value-returned", "read of key %d returned %d after put_or_update had set %d" % (k, v, current[k]), no_shrink=True))
+    return out
 
 
 def run_monitor(pid, schedules, impl):
